@@ -56,7 +56,7 @@ type Sim struct {
 
 	draw      func(n int) int
 	policy    int
-	preempt   [8]uint64
+	preempt   [32]uint64
 	npreempt  int
 	maxYields uint64
 
@@ -169,7 +169,8 @@ func (s *Sim) Begin(c Config) {
 		}
 		s.npreempt = 1 + c.Draw(4)
 		if c.Dense {
-			s.npreempt += c.Draw(5)
+			// windows of a few statements among tens of thousands: many more preemption points per run
+			s.npreempt = 4 + c.Draw(25)
 		}
 		for i := 0; i < s.npreempt; i++ {
 			s.preempt[i] = uint64(c.Draw(2 * est))
